@@ -35,6 +35,6 @@ PROP = dict(
     modelled="flag propagation, gates and permission matching are modelled and proved; the tables are generated from the source; effects of system calls / native methods are observed on a live chain for every entry x 16 flag sets, not derived from the Go bodies",
 )
 META = dict(
-    text="Proved in Coq: flags only shrink along any call chain; over the tables GENERATED from the Go source on every run, every system call / native method (every hard-fork) classified as state-changing requires WriteStates, notifying requires AllowNotify (from Faun on), calling requires AllowCall; on the model machine no write/notification/call happens in a frame lacking the flag, safe methods and dynamic scripts are read-only; CanCall <=> some permission matches callee (wildcard/hash/group) AND method. Tied to the code by an exhaustive sweep (every table entry x 16 flag sets on a live neotest chain; every single permission x callee x method, also through real cross-contract calls). Partial: two open findings - F6 (group permission ignores its method list; model follows the repaired code, patch ready) and F39 (NeoToken.vote, PolicyContract.blockAccount, ContractManagement.destroy start the voter's onNEP17Payment without AllowCall; frame-level no-call theorem is stated with the guard f39_free, full statement kept and refuted).",
+    text="Proved in Coq: flags only shrink along any call chain; over the tables GENERATED from the Go source on every run, every system call / native method (every hard-fork) classified as state-changing requires WriteStates, notifying requires AllowNotify (from Faun on), calling requires AllowCall; on the model machine no write/notification/call happens in a frame lacking the flag, safe methods and dynamic scripts are read-only; CanCall <=> some permission matches callee (wildcard/hash/group) AND method; the stored (stack item) form of permissions round-trips, so a restarted node allows exactly what the deploying node allowed. Tied to the code by an exhaustive sweep (every table entry x 16 flag sets on a live neotest chain; every single permission x callee x method, also on the stored forms (item, manifest, serialized contract state) and through real cross-contract calls before and after a node restart over the same LevelDB). Partial: two open findings - F6 (group permission ignores its method list; model follows the repaired code, patch ready) and F39 (NeoToken.vote, PolicyContract.blockAccount, ContractManagement.destroy start the voter's onNEP17Payment without AllowCall; frame-level no-call theorem is stated with the guard f39_free, full statement kept and refuted).",
     note="Trusted: Coq kernel/vm_compute, the translator, the classification list (cross-checked dynamically), the Go harness and orchestration. The hand models are tied by correspondence, not by translation. Native method bodies are observed, not modelled.",
 )
